@@ -1,6 +1,6 @@
 /-
 C14 concrete model `B`: transcription of /repo/container/{adjacencymap,csr,triplestore,digraph,segment,
-traversal}.go AS THE CODE IS (defects included). Core Lean only (the driver imports this file).
+traversal}.go AS THE CODE IS (remaining defects included). Core Lean only (the driver imports this file).
 
 Conventions
 * a roaring `Bitmap64` is a strictly ascending `List Nat` (`Add` = `sinsert`, `Or` = `sunion`,
@@ -8,8 +8,10 @@ Conventions
 * a Go `map[uint64]Bitmap` is an association list `NMap` (only looked up by key; where the code
   ranges over a map — `Normalize` — the result does not depend on the order);
 * Go slices grown with `append` are lists grown at the END (`xs ++ [x]`), so indices coincide;
-* every definition that the current code gets wrong for `DirectionBoth` (DESIGN §5 F2) takes a
-  `fixed : Bool`: `false` = the code as it is, `true` = the minimal repair (`Edge.Other`).
+* every definition that the code USED TO get wrong for `DirectionBoth` (DESIGN §5 F2, repaired in /repo by
+  789c790 `Edge.Other`) takes a `fixed : Bool`: `true` = the code as it is now (the live definitions, what the
+  driver suite `c14` runs and what `C14_full` is about), `false` = the code before the repair (kept so the
+  refutations `…_old` stay checkable and the corpus replays still show the old shape in suite `c14old`).
 -/
 namespace Dawgs.C14
 
@@ -228,15 +230,15 @@ def TS.adjacentEdgeIndices (t : TS) (n : Nat) : Dir → List Nat
   | .inn => sunion [] (mget t.endIndex n)
   | .both => sunion (sunion [] (mget t.startIndex n)) (mget t.endIndex n)
 
-/-- `Edge.Pick(direction)` as it is: everything but outbound picks `Start`. -/
+/-- `Edge.Pick(direction)` (still in the code, no longer used by the containers): everything but outbound picks `Start`. -/
 def Edge.pick (e : Edge) : Dir → Nat
   | .out => e.stop
   | _ => e.start
 
-/-- proposed repair: the endpoint opposite to `n` (`n` itself for a self loop). -/
+/-- `Edge.Other(node)`: the endpoint opposite to `n` (`n` itself for a self loop). -/
 def Edge.other (e : Edge) (n : Nat) : Nat := if e.start = n then e.stop else e.start
 
-/-- the `switch direction` inside `triplestore.adjacent`; `fixed` repairs the default branch. -/
+/-- the `switch direction` inside `triplestore.adjacent`; `fixed = false` is the default branch before 789c790. -/
 def tsAddEnds (fixed : Bool) (n : Nat) (d : Dir) (acc : List Nat) (e : Edge) : List Nat :=
   match d with
   | .out => sinsert e.stop acc
@@ -403,34 +405,98 @@ def toSegment (nodes edges : List Nat) : Option (List Seg) :=
   | _ :: _, _ :: _ => none
   | n :: ns, [] => some [⟨(n :: ns).getLastD 0, 0⟩]
 
-/-! ### TSBFS / TSDFS (traversal.go) over `EachAdjacentEdge` -/
+/-! ### TSDFS / TSBFS / TSStatelessBFS (traversal.go) over `EachAdjacentEdge`
 
-/-- one traversal step shared by TSBFS (`bfs = true`: `PopFront`) and TSDFS (`PopBack`).
-`adjE n` = `EachAdjacentEdge(n, direction)` sequence, `filt` = descent filter. A segment is a
-`List Seg` terminal → root; its `Depth()` is the list length. Returns handler calls in order and
-the incomplete count; `none` = fuel exhausted (the real code does not terminate on a filtered cycle
-with `maxDepth ≤ 0`). The handlers used by the tie always return `true`. -/
-def tsLoop (bfs fixed : Bool) (adjE : Nat → List Edge) (d : Dir) (filt : Edge → Bool) (maxDepth : Int) :
-    Nat → List (List Seg) → List (List Seg) → Nat → Option (List (List Seg) × Nat)
-  | _, [], out, inc => some (out, inc)
-  | 0, _ :: _, _, _ => none
-  | fuel + 1, q@(_ :: _), out, inc =>
-    let next := if bfs then q.head! else q.getLast!
-    let rest := if bfs then q.tail else q.dropLast
-    let node := (next.headD ⟨0, 0⟩).node
-    let depth : Int := next.length
-    let exceeded := decide (maxDepth > 0) && decide (maxDepth < depth)
-    let pushes : List (List Seg) :=
-      if exceeded then []
-      else ((adjE node).filter filt).map (fun e => ⟨pickOr fixed node d e, e.id⟩ :: next)
-    let q' := rest ++ pushes
-    if decide (depth > 1) && pushes.isEmpty then
-      tsLoop bfs fixed adjE d filt maxDepth fuel q' (out ++ [next]) (if exceeded then inc + 1 else inc)
-    else
-      tsLoop bfs fixed adjE d filt maxDepth fuel q' out inc
+The three functions are one loop over a deque of work items; they differ in the end they pop from and in
+what an item is (`*Segment` chain vs `PathTerminal`). -/
 
+/-- `PopFront` (`bfs = true`) / `PopBack` of the deque. -/
+def popNext {α : Type} (bfs : Bool) : List α → Option (α × List α)
+  | [] => none
+  | x :: xs => if bfs then some (x, xs) else some ((x :: xs).getLast (List.cons_ne_nil x xs), (x :: xs).dropLast)
+
+/-- The shared loop. `children x` = the items pushed (`PushBack`, in `EachAdjacentEdge` order) while expanding
+`x` — nothing when the depth is exceeded; `isPath x` = `x` is past the root (`Depth() > 1` / `Distance >= 1`).
+An item goes to the handler when it is past the root and nothing was pushed (`remaining-1 == Len()` /
+`!hasExpansions`); `inc` counts those whose depth was exceeded. Returns handler calls in order and the
+incomplete count; `none` = fuel exhausted (the real code does not terminate on a filtered cycle with
+`maxDepth ≤ 0`). The handlers used by the tie always return `true`. -/
+def travLoop {α : Type} (bfs : Bool) (children : α → List α) (isPath exceeded : α → Bool) :
+    Nat → List α → List α → Nat → Option (List α × Nat)
+  | 0, q, out, inc =>
+    match popNext bfs q with
+    | none => some (out, inc)
+    | some _ => none
+  | fuel + 1, q, out, inc =>
+    match popNext bfs q with
+    | none => some (out, inc)
+    | some (next, rest) =>
+      if isPath next && (children next).isEmpty then
+        travLoop bfs children isPath exceeded fuel (rest ++ children next) (out ++ [next]) (if exceeded next then inc + 1 else inc)
+      else
+        travLoop bfs children isPath exceeded fuel (rest ++ children next) out inc
+
+/-- `maxDepth > 0 && maxDepth < segment.Depth()`; a segment is a `List Seg` terminal → root, `Depth()` its length. -/
+def segExceeded (maxDepth : Int) (w : List Seg) : Bool := decide (maxDepth > 0) && decide (maxDepth < (w.length : Int))
+
+def segIsPath (w : List Seg) : Bool := decide (w.length > 1)
+
+def segNode (w : List Seg) : Nat := (w.headD ⟨0, 0⟩).node
+
+/-- the `EachAdjacentEdge` callback of TSDFS/TSBFS: one pushed segment per admitted edge. `adjE n` =
+`EachAdjacentEdge(n, direction)` sequence, `filt` = descent filter, `pick` = far end (`Edge.Other`). -/
+def segChildren (adjE : Nat → List Edge) (filt : Edge → Bool) (maxDepth : Int) (pick : Edge → Nat → Nat) (w : List Seg) :
+    List (List Seg) :=
+  if segExceeded maxDepth w then []
+  else ((adjE (segNode w)).filter filt).map (fun e => ⟨pick e (segNode w), e.id⟩ :: w)
+
+/-- the far end as the code (version `fixed`) computes it during a traversal in direction `d` -/
+def pickAt (fixed : Bool) (d : Dir) (e : Edge) (n : Nat) : Nat := pickOr fixed n d e
+
+/-- `TSBFS` (`bfs = true`) / `TSDFS` from `root`. -/
 def tsTraverse (bfs fixed : Bool) (adjE : Nat → List Edge) (d : Dir) (filt : Edge → Bool) (maxDepth : Int)
     (fuel : Nat) (root : Nat) : Option (List (List Seg) × Nat) :=
-  tsLoop bfs fixed adjE d filt maxDepth fuel [[⟨root, 0⟩]] [] 0
+  travLoop bfs (segChildren adjE filt maxDepth (pickAt fixed d)) segIsPath (segExceeded maxDepth) fuel [[⟨root, 0⟩]] [] 0
+
+/-- `PathTerminal`; weights are naturals (the tie uses small integral `float64` weights, whose products are exact). -/
+structure PTerm where
+  node : Nat
+  dist : Nat
+  weight : Nat
+deriving DecidableEq, Repr, Inhabited
+
+/-- `maxDepth > 0 && maxDepth < nextSegment.Distance` — note: counted in EDGES here, in NODES (`Depth()`) by TSBFS/TSDFS,
+so the stateless walk may be one edge longer for the same `maxDepth`. -/
+def ptExceeded (maxDepth : Int) (t : PTerm) : Bool := decide (maxDepth > 0) && decide (maxDepth < (t.dist : Int))
+
+def ptIsPath (t : PTerm) : Bool := decide (t.dist ≥ 1)
+
+/-- the callback of TSStatelessBFS: `wfilt e = some w` = `descentFilter` admits `e` with weight `w`;
+`if nextSegment.Distance > 0 { weight *= nextSegment.Weight }`. -/
+def ptChildren (adjE : Nat → List Edge) (wfilt : Edge → Option Nat) (maxDepth : Int) (pick : Edge → Nat → Nat) (t : PTerm) :
+    List PTerm :=
+  if ptExceeded maxDepth t then []
+  else (adjE t.node).filterMap (fun e => (wfilt e).map (fun w =>
+    ⟨pick e t.node, t.dist + 1, if t.dist > 0 then w * t.weight else w⟩))
+
+/-- `TSStatelessBFS` from `root` (`numWorkers` is unused by the code). -/
+def statelessBFS (fixed : Bool) (adjE : Nat → List Edge) (d : Dir) (wfilt : Edge → Option Nat) (maxDepth : Int)
+    (fuel : Nat) (root : Nat) : Option (List PTerm × Nat) :=
+  travLoop true (ptChildren adjE wfilt maxDepth (pickAt fixed d)) ptIsPath (ptExceeded maxDepth) fuel [⟨root, 0, 0⟩] [] 0
+
+/-! ### NumEdges / Degrees / Dimensions -/
+
+/-- `adjacencyMapDigraph.NumEdges` AS IT IS: it returns `s.nodes.Cardinality()`. -/
+def AdjMap.numEdges (g : AdjMap) : Nat := g.nodes.length
+/-- `csrDigraph.NumEdges`: `len(outAdj)` — distinct (start, end) pairs. -/
+def Csr.numEdges (g : Csr) : Nat := g.outAdj.length
+/-- `triplestore.NumEdges`: `len(edges)` — every triple, tombstoned or not. -/
+def TS.numEdges (t : TS) : Nat := t.edges.length
+/-- `triplestoreProjection.NumEdges`: live edges of the origin's edge array. -/
+def Proj.numEdges (p : Proj) : Nat := (p.origin.edges.filter p.alive).length
+
+/-- `Dimensions(digraph, direction)`: `(NumNodes, largest Degrees)`, `Degrees` = number of callbacks. -/
+def dimensions (nodes : List Nat) (numNodes : Nat) (adj : Nat → List Nat) : Nat × Nat :=
+  (numNodes, nodes.foldl (fun m n => if (adj n).length > m then (adj n).length else m) 0)
 
 end Dawgs.C14
